@@ -392,7 +392,7 @@ class H4BeaconB(H4Beacon):
 
 class H6Mixed(H3EgoPv):
     """rx(first beacon of X) || originate GBC || rx(GBC of S to forward and deliver) || refresh ego position: nothing fails,
-    one originated and one forwarded frame, one delivery, X a neighbour afterwards, originated SO PV a whole ego PV"""
+    one originated and one forwarded frame, one delivery, originated SO PV a whole ego PV"""
 
     def extra_setup(self):
         H3EgoPv.extra_setup(self)
@@ -424,9 +424,9 @@ class H6Mixed(H3EgoPv):
                 bad.append(dict(kind="forwarded_frame_altered", sn=p["ext"]["sn"], rhl=p["basic"]["rhl"]))
         if len(self.inds) != 1:
             bad.append(dict(kind="delivery_count", got=len(self.inds), expected=1))
-        x = self.r.location_table.get_entry(GNAddress(m=M.GN_UNICAST, st=ST.PASSENGER_CAR, mid=MID(b"\0\0\0\0\0\x55")))
-        if x is None or not x.is_neighbour:
-            bad.append(dict(kind="beacon_sender_not_a_neighbour"))
+        # (not judged: whether X is in the location table afterwards - the property has no clause about the table under
+        #  concurrency; on the pinned tree a concurrent refresh_table() can purge X's entry between its insertion and its
+        #  first update, see DESIGN 8.2 "observed outside the properties")
         fin = self.r.ego_position_vector
         if (fin.latitude, fin.longitude, fin.s, fin.h, fin.tst.msec) not in self.pvs:
             bad.append(dict(kind="torn_ego_pv"))
